@@ -67,7 +67,7 @@ Conf(ww, r) ==
            \A j \in 1..Len(r.lines) : r.lines[j].len = ByteLen(JLine(r.lines[j])), "HARNESS", "line length differs from the model's serialisation")
 
 FreshW(r) ==
-  LET w0 == [InitW(r.has_pw, r.pw, r.srv_pw, r.has_srv_pw, r.auth, r.pic) EXCEPT !.pic2 = r.pic2] IN
+  LET w0 == [InitW(r.has_pw, r.pw, r.srv_pw, r.has_srv_pw, r.auth, r.pic) EXCEPT !.pic2 = r.pic2, !.evLazy = r.lazy_events] IN
   IF r.greeting = <<>> THEN w0 ELSE Emit(w0, "greet", <<Line("greet", <<>>, r.greeting, 0, 0)>>, 0)
 
 GreetSeen(ww) == IF ww.out = <<>> \/ ww.out[1].l.t # "greet" THEN <<>> ELSE SubSeq(ww.out[1].l.v, 1, Min(ww.dl, Len(ww.out[1].l.v)))
@@ -89,6 +89,7 @@ Step(ww, r) ==
     [] r.e = "event"      -> IF r.t = "chg" THEN WEvent(ww, r.name) ELSE WClosingEvent(ww, r.kind)
     [] r.e = "events_end" -> WEventsEnd(ww)
     [] r.e = "events_dropped" -> WEventsDropped(ww)
+    [] r.e = "events_eager" -> [ww EXCEPT !.evLazy = FALSE]
     [] r.e = "timeout"    -> WTimeout(ww)
     [] r.e = "wstall"     -> WStall(ww, TRUE)
     [] r.e = "wresume"    -> WStall(ww, FALSE)
